@@ -18,6 +18,7 @@ import (
 
 	"verif/c13/ovl"
 	"verif/c13/wpool"
+	"verif/corpus"
 	"verif/drive"
 	"verif/findings"
 )
@@ -214,6 +215,9 @@ func Run() int {
 	if c.harnessErr == "" && want("relocation") {
 		c.relocation()
 	}
+	if c.harnessErr == "" && want("corpus") {
+		c.corpusOrders()
+	}
 	if c.harnessErr != "" {
 		fmt.Fprintln(os.Stderr, "C14: HARNESS ERROR:", c.harnessErr)
 		return 2
@@ -225,7 +229,7 @@ func Run() int {
 	}
 	r.Set("exhaustive", exhaustive)
 	r.Set("workers", poolSize)
-	r.Set("rule", "part 1: every history of Transpile calls over the alphabet {P1 scalar, P2 functions+slices+strings, P3 local+std imports, P4, P5, Perr rejected by the parser, Perr rejected late by the emitting stage, P6 = P3's main next to another library file} x {bash, batch} up to the stated length on ONE transpiler value with a fresh converter per call; every call must return byte-identically what it returns alone in a fresh process; the reachable hidden state (transpiler value + package-level variables) is hashed after every call and searched breadth-first with state deduplication until no new state appears. part 2: every iteration order of every range over a map (all n! for n<=5, rotations+reversal beyond), one or two non-default choice points per execution. part 3: the same tree at relocated places and under relative paths. distinct = distinct history / (program, order assignment) / location; non-trivial = at least two calls, or a non-default order, or a location different from the base.")
+	r.Set("rule", "part 1: every history of Transpile calls over the alphabet {P1 scalar, P2 functions+slices+strings, P3 local+std imports, P4, P5, Perr rejected by the parser, Perr rejected late by the emitting stage, P6 = P3's main next to another library file, P7 command calls + files + input + std os} x {bash, batch} up to the stated length on ONE transpiler value with a fresh converter per call; every call must return byte-identically what it returns alone in a fresh process; the reachable hidden state (transpiler value + package-level variables) is hashed after every call and searched breadth-first with state deduplication until no new state appears. part 2: every iteration order of every range over a map (all n! for n<=5, rotations+reversal beyond), one or two non-default choice points per execution. part 3: the same tree at relocated places and under relative paths. part 4: every sole-facility program of package corpus: each of the two calls (bash, batch) alone in two fresh processes, then the histories [bash,batch], [batch,bash], [bash,bash,batch], [batch,batch,bash] on one transpiler value with a fresh converter per call, and the two-call histories also with one converter per target (as the tsh command does); every call must return the bytes it returns alone. distinct = distinct history / (program, order assignment) / location; non-trivial = at least two calls, or a non-default order, or a location different from the base.")
 	r.Assumef("hidden state outside the transpiler value and the package-level variables of the repository packages (e.g. inside the Go standard library) is not dumped; it is still exercised by running every history without state deduplication")
 	r.Assumef("map iteration inside the standard library is not owned by the explorer; such call sites are listed under unowned_choice_points (none means none exist in the current tree)")
 	r.Assumef("memory-address- or time-dependent behaviour would escape the search; none exists in the code read")
@@ -343,7 +347,7 @@ func (c *checker) histories() {
 			prev = cur
 		}
 	}
-	maxLen := 3 // 16 calls in the alphabet: 4096 histories of length 3, 65536 of length 4
+	maxLen := 3 // 18 calls in the alphabet: 5832 histories of length 3, 104976 of length 4
 	if r.Thorough() {
 		maxLen = 4
 	}
@@ -910,4 +914,79 @@ func (c *checker) relocation() {
 	r.Set("relocation_cases", n)
 	cur, _ := r.Cov["distinct_nontrivial"].(int)
 	r.Set("distinct_nontrivial", cur+n)
+}
+
+// ------------------------------------------------------------------ part 4
+
+// corpusOrders: the two targets never influence each other, whatever single facility a program uses.
+func (c *checker) corpusOrders() {
+	r := c.r
+	progs := corpus.Tiny()
+	treeDir := filepath.Join(c.scratch, "corpus")
+	var mu sync.Mutex
+	judged, histories := 0, 0
+	drive.Par(len(progs), func(i int) {
+		if c.past() {
+			c.setCap("corpus sweep stopped at the internal deadline")
+			return
+		}
+		p := progs[i]
+		d := filepath.Join(treeDir, fmt.Sprintf("t%d", i))
+		if err := writeTree(d, Tree{Name: p.Name, Main: "main.tsh", Files: map[string]string{"main.tsh": p.Src}}); err != nil {
+			c.harness("cannot write tree: %v", err)
+			return
+		}
+		alpha := []CallSpec{{Path: filepath.Join(d, "main.tsh"), Target: 0}, {Path: filepath.Join(d, "main.tsh"), Target: 1}}
+		var base [2]Obs
+		for ci := 0; ci < 2; ci++ {
+			var outs []Obs
+			for k := 0; k < 2; k++ {
+				resp, ok := c.do(c.plain, Req{Op: "hist", Family: "fresh", Alphabet: alpha, Calls: []int{ci}, WantText: true}, true)
+				if !ok || len(resp.Obs) != 1 {
+					return
+				}
+				outs = append(outs, resp.Obs[0])
+			}
+			if outs[0].Out != outs[1].Out {
+				r.Fail(fmt.Sprintf("part=corpus prog=%s target=%s symptom=fresh-processes-disagree", p.Name, targetName(ci)),
+					"the same single Transpile call returns different bytes in two fresh processes", func() findings.Replay {
+						return findings.Replay{Files: map[string]string{"src/main.tsh": p.Src, "first.txt": outs[0].Script + outs[0].ErrText, "second.txt": outs[1].Script + outs[1].ErrText}, Script: "diff first.txt second.txt"}
+					})
+				return
+			}
+			base[ci] = outs[0]
+		}
+		for _, fam := range []string{"fresh", "reuse"} {
+			for _, h := range [][]int{{0, 1}, {1, 0}, {0, 0, 1}, {1, 1, 0}} {
+				if fam == "reuse" && len(h) > 2 {
+					continue // a converter serves ONE call per target (the command makes a new one for a repeated target)
+				}
+				resp, ok := c.do(c.plain, Req{Op: "hist", Family: fam, Alphabet: alpha, Calls: h, WantText: true}, true)
+				if !ok || len(resp.Obs) != len(h) {
+					return
+				}
+				mu.Lock()
+				histories++
+				judged += len(h)
+				mu.Unlock()
+				for k, ci := range h {
+					if resp.Obs[k].Out != base[ci].Out {
+						got, want := resp.Obs[k], base[ci]
+						var hn []string
+						for _, x := range h {
+							hn = append(hn, targetName(x))
+						}
+						r.Fail(fmt.Sprintf("part=corpus prog=%s family=%s-converter history=%s differing-call=%d:%s", p.Name, fam, strings.Join(hn, ","), k+1, targetName(ci)),
+							fmt.Sprintf("call %d of the history returns other bytes (%s) than the same call alone in a fresh process (%s)", k+1, got.Class, want.Class), func() findings.Replay {
+								return findings.Replay{Files: map[string]string{"src/main.tsh": p.Src, "alone.txt": want.Script + want.ErrText, "in-history.txt": got.Script + got.ErrText}, Script: "diff alone.txt in-history.txt"}
+							})
+						break
+					}
+				}
+			}
+		}
+	})
+	r.Set("corpus_programs", len(progs))
+	r.Set("corpus_histories", histories)
+	r.Set("corpus_calls_judged", judged)
 }
